@@ -1073,7 +1073,7 @@ Definition crel (P Q : nat -> Prop) (j : nat) (c c' : conn) : Prop :=
 Definition evolves (P Q : nat -> Prop) (n n' : node) : Prop :=
   pnames n' = pnames n /\ (n_next_cid n <= n_next_cid n')%nat /\
   forall j c', get_conn n' j = Some c' ->
-    (n_next_cid n <= j)%nat \/ exists c, get_conn n j = Some c /\ crel P Q j c c'.
+    (n_next_cid n <= j < n_next_cid n')%nat \/ exists c, get_conn n j = Some c /\ crel P Q j c c'.
 
 Definition NoP : nat -> Prop := fun _ => False.
 Notation ev0 := (evolves NoP NoP).
@@ -1105,7 +1105,7 @@ Lemma ev_trans P Q a b c : evolves P Q a b -> evolves P Q b c -> evolves P Q a c
 Proof.
   intros [H1 [H2 H3]] [G1 [G2 G3]]. split; [congruence|]. split; [lia|].
   intros j c'' Hc. destruct (G3 j c'' Hc) as [Hle|[c' [Hc' Hr']]]; [left; lia|].
-  destruct (H3 j c' Hc') as [Hle|[c0 [Hc0 Hr0]]]; [left; exact Hle|].
+  destruct (H3 j c' Hc') as [Hle|[c0 [Hc0 Hr0]]]; [left; lia|].
   right. exists c0. split; [exact Hc0|]. eapply crel_trans; eassumption.
 Qed.
 
@@ -1813,3 +1813,284 @@ Proof.
   destruct (start_all (List.map p_name (n_peers n)) n ds []) as [[n1 o1] ds1].
   pose proof (ev_settle' n1 ds1) as H2. destruct (settle' n1 ds1) as [n2 o2]. cbn [fst] in *. ev_chain.
 Qed.
+
+(* ---- ERecv ------------------------------------------------------------------------------------------ *)
+Lemma ev_upd_last_read n cid : ev0 n (upd_last_read n cid).
+Proof. unfold upd_last_read. apply ev_upd_keep; [solve_idp|intros x; split; reflexivity]. Qed.
+
+Lemma ev_step_recv n ds cid ms :
+  evolves (PA cid (pnames n) ms) (Qc cid) n (fst (step n ds (ERecv cid ms))).
+Proof.
+  cbn [step]. destruct (get_conn n cid); [|apply ev_refl].
+  pose proof (ev_io_iteration n ds) as H1. destruct (io_iteration n ds) as [[n1 o1] ds1]. cbn [fst] in H1.
+  pose proof (ev_upd_last_read n1 cid) as H2. set (n2 := upd_last_read n1 cid) in *.
+  assert (H12 : ev0 n n2) by (eapply ev_trans; eassumption).
+  pose proof (ev_dispatch_all ms n2 cid) as H3. destruct (dispatch_all n2 cid ms) as [n3 o3].
+  pose proof (ev_settle' n3 ds1) as H4. destruct (settle' n3 ds1) as [n4 o4]. cbn [fst] in *.
+  assert (Hpn : pnames n2 = pnames n) by apply H12. rewrite Hpn in H3.
+  eapply ev_trans; [apply ev0_any, H12|]. eapply ev_trans; [exact H3|apply ev0_any, H4].
+Qed.
+
+(* every step: numbers of connections stay below the counter *)
+Definition conns_fresh (n : node) : Prop := forall j c, get_conn n j = Some c -> (j < n_next_cid n)%nat.
+
+Lemma ev_step n ds e : exists P Q, evolves P Q n (fst (step n ds e)).
+Proof.
+  destruct e.
+  - exists NoP, NoP. apply ev_step_accept.
+  - eexists _, _. apply ev_step_recv.
+  - exists NoP, NoP. apply ev_step_peer_close.
+  - exists NoP, NoP. apply ev_step_read_err.
+  - exists NoP, NoP. apply ev_step_conn_done.
+  - exists NoP, NoP. apply ev_step_stall.
+  - exists NoP, NoP. apply ev_step_tick.
+  - exists NoP, NoP. apply ev_step_app_answer.
+  - exists NoP, NoP. apply ev_step_app_request.
+  - exists NoP, NoP. apply ev_step_stop.
+  - exists NoP, NoP. apply ev_step_stop_finish.
+  - exists NoP, NoP. apply ev_step_start.
+Qed.
+
+(* freshness of connection numbers is an invariant of step (it holds for a node without connections) *)
+Theorem conns_fresh_step n ds e : conns_fresh n -> conns_fresh (fst (step n ds e)).
+Proof.
+  intros Hf j c' Hc'. destruct (ev_step n ds e) as [P [Q [_ [Hn H]]]].
+  destruct (H j c' Hc') as [Hle|[c [Hc _]]]; [lia|]. apply Hf in Hc. lia.
+Qed.
+
+Lemma ev_at P Q n n' cid c c' :
+  evolves P Q n n' -> (cid < n_next_cid n)%nat -> get_conn n cid = Some c -> get_conn n' cid = Some c' ->
+  crel P Q cid c c'.
+Proof.
+  intros [_ [_ H]] Hlt Hc Hc'. destruct (H cid c' Hc') as [Hle|[c0 [Hc0 Hr]]]; [lia|].
+  rewrite Hc in Hc0. inversion Hc0; subst. exact Hr.
+Qed.
+
+Lemma ev_at_none P Q n n' cid :
+  evolves P Q n n' -> (cid < n_next_cid n)%nat -> get_conn n cid = None -> get_conn n' cid = None.
+Proof.
+  intros [_ [_ H]] Hlt Hc. destruct (get_conn n' cid) as [c'|] eqn:Hc'; [|reflexivity].
+  destruct (H cid c' Hc') as [Hle|[c0 [Hc0 Hr]]]; [lia|congruence].
+Qed.
+
+(* the statements about frames, in terms of the node's configured peers *)
+Definition is_good_cer (n : node) (m : msg) : Prop :=
+  m_cmd m = CE /\ m_req m = true /\ exists h, m_origin m = Present h /\ get_peer n h <> None.
+Definition is_good_cea (m : msg) : Prop :=
+  m_cmd m = CE /\ m_req m = false /\ m_result m = Present 2001.
+
+Lemma ce_any_good n m : ce_any (pnames n) m -> is_good_cer n m \/ is_good_cea m.
+Proof.
+  intros [Hk [[Hr [h [Ho Hin]]]|[Hr He]]]; [left|right]; split; auto. split; [exact Hr|].
+  exists h. split; [exact Ho|apply in_pnames_get_peer, Hin].
+Qed.
+
+Lemma ce_ok_good n b m : ce_ok (pnames n) b m -> if b then is_good_cer n m else is_good_cea m.
+Proof.
+  intros [Hk H]. destruct b.
+  - destruct H as [Hr [h [Ho Hin]]]. split; [exact Hk|]. split; [exact Hr|].
+    exists h. split; [exact Ho|apply in_pnames_get_peer, Hin].
+  - destruct H as [Hr He]. split; auto.
+Qed.
+
+(* C06, per event kind: no event other than a network read makes a connection ready *)
+Lemma C06_ready_only_by_ce_other n ds e cid c c' :
+  ev0 n (fst (step n ds e)) ->
+  (cid < n_next_cid n)%nat -> get_conn n cid = Some c -> is_ready_state (c_state c) = false ->
+  get_conn (fst (step n ds e)) cid = Some c' -> is_ready_state (c_state c') = true -> False.
+Proof.
+  intros Hev Hlt Hc Hnr Hc' Hr. destruct (ev_at _ _ _ _ cid c c' Hev Hlt Hc Hc') as [_ [H _]].
+  destruct (H Hr) as [H1|[]]. congruence.
+Qed.
+
+(* C06, network read: the frames contain a CER of a configured peer or a CEA 2001 *)
+Lemma C06_ready_only_by_ce_recv n ds cid0 ms cid c c' :
+  (cid < n_next_cid n)%nat -> get_conn n cid = Some c -> is_ready_state (c_state c) = false ->
+  get_conn (fst (step n ds (ERecv cid0 ms))) cid = Some c' -> is_ready_state (c_state c') = true ->
+  cid0 = cid /\ exists m, List.In m ms /\ (is_good_cer n m \/ is_good_cea m).
+Proof.
+  intros Hlt Hc Hnr Hc' Hr.
+  destruct (ev_at _ _ _ _ cid c c' (ev_step_recv n ds cid0 ms) Hlt Hc Hc') as [_ [H _]].
+  destruct (H Hr) as [H1|[Hj [m [Hin Hm]]]]; [congruence|]. split; [congruence|].
+  exists m. split; [exact Hin|apply ce_any_good, Hm].
+Qed.
+
+(* C06, network read on a CONNECTED connection: the direction of the CE message matches the connection *)
+Lemma C06_ready_only_by_ce_recv_connected n ds cid ms c c' :
+  (cid < n_next_cid n)%nat -> get_conn n cid = Some c -> c_state c = SConnected ->
+  get_conn (fst (step n ds (ERecv cid ms))) cid = Some c' -> is_ready_state (c_state c') = true ->
+  exists m, List.In m ms /\ if c_recv c then is_good_cer n m else is_good_cea m.
+Proof.
+  intros Hlt Hc Hs Hc' Hr. cbn [step] in Hc'. rewrite Hc in Hc'.
+  pose proof (ev_io_iteration n ds) as H1. destruct (io_iteration n ds) as [[n1 o1] ds1]. cbn [fst] in H1.
+  pose proof (ev_upd_last_read n1 cid) as H2. set (n2 := upd_last_read n1 cid) in *.
+  assert (H12 : ev0 n n2) by (eapply ev_trans; eassumption).
+  pose proof (ev_dispatch_all ms n2 cid) as H3.
+  pose proof (co_dispatch_all ms n2 cid) as Hco.
+  pose proof (dispatch_all_dead ms n2 cid) as Hdead.
+  destruct (dispatch_all n2 cid ms) as [n3 o3].
+  pose proof (ev_settle' n3 ds1) as H4. destruct (settle' n3 ds1) as [n4 o4]. cbn [fst] in *.
+  assert (Hpn : pnames n2 = pnames n) by apply H12.
+  assert (Hlt2 : (cid < n_next_cid n2)%nat) by (destruct H12 as [_ [Hn _]]; lia).
+  assert (Hlt3 : (cid < n_next_cid n3)%nat) by (destruct H3 as [_ [Hn _]]; lia).
+  assert (Hnone : get_conn n3 cid = None -> False).
+  { intros Hn3. rewrite (ev_at_none _ _ n3 n4 cid H4 Hlt3 Hn3) in Hc'. discriminate. }
+  assert (Hdull : forall c3, get_conn n3 cid = Some c3 -> c_state c3 = SConnected \/ c_state c3 = SClosing -> False).
+  { intros c3 Hc3 Hs3. destruct (ev_at _ _ _ _ cid c3 c' H4 Hlt3 Hc3 Hc') as [_ [H _]].
+    destruct (H Hr) as [Hr3|[]]. destruct Hs3 as [E|E]; rewrite E in Hr3; discriminate. }
+  destruct (get_conn n2 cid) as [c2|] eqn:Hc2.
+  - destruct (ev_at _ _ _ _ cid c c2 H12 Hlt Hc Hc2) as [Hb2 [_ Hs2]].
+    destruct (Hs2 Hs) as [Hs2'|[]].
+    destruct (Hco c2 eq_refl Hs2') as [Hn3|[[c3 [Hc3 Hs3]]|[m [Hin Hm]]]].
+    + destruct (Hnone Hn3).
+    + destruct (Hdull c3 Hc3 Hs3).
+    + exists m. split; [exact Hin|]. rewrite Hpn, Hb2 in Hm. apply ce_ok_good, Hm.
+  - exfalso. apply Hnone. assert (E : (n3, o3) = (n2, [])) by (apply Hdead; left; reflexivity).
+    inversion E; subst. exact Hc2.
+Qed.
+
+(* C06: a connection that was not ready and is ready after a step: the step was a network read on that
+   connection whose frames contain a CER of a configured peer or a CEA 2001; if the connection was CONNECTED
+   the message has the direction of the connection (CER on an inbound, CEA on an outbound connection) *)
+Theorem C06_ready_only_by_ce n ds e cid c c' :
+  (cid < n_next_cid n)%nat ->
+  get_conn n cid = Some c -> is_ready_state (c_state c) = false ->
+  get_conn (fst (step n ds e)) cid = Some c' -> is_ready_state (c_state c') = true ->
+  exists ms, e = ERecv cid ms /\
+    (exists m, List.In m ms /\ (is_good_cer n m \/ is_good_cea m)) /\
+    (c_state c = SConnected ->
+     exists m, List.In m ms /\ if c_recv c then is_good_cer n m else is_good_cea m).
+Proof.
+  intros Hlt Hc Hnr Hc' Hr.
+  destruct e as [h|cid0 ms|k|k hard|k ok|k b|dt|i m|i m realm pick tmo|force|tc te|];
+    try (exfalso;
+         match type of Hc' with get_conn (fst (step n ds ?e)) _ = _ => eapply (C06_ready_only_by_ce_other n ds e) end;
+         [first [apply ev_step_accept | apply ev_step_peer_close | apply ev_step_read_err
+                | apply ev_step_conn_done | apply ev_step_stall | apply ev_step_tick
+                | apply ev_step_app_answer | apply ev_step_app_request | apply ev_step_stop
+                | apply ev_step_stop_finish | apply ev_step_start]
+         |exact Hlt|exact Hc|exact Hnr|exact Hc'|exact Hr]).
+  destruct (C06_ready_only_by_ce_recv n ds cid0 ms cid c c' Hlt Hc Hnr Hc' Hr) as [-> Hm].
+  exists ms. split; [reflexivity|]. split; [exact Hm|]. intros Hs.
+  eapply C06_ready_only_by_ce_recv_connected; eassumption.
+Qed.
+
+(* ================================================================================== *)
+(* Examples on a concrete node: one peer "p", one application (id 4), one connection    *)
+(* ================================================================================== *)
+Definition ex_cfg : cfg :=
+  {| g_host := "n"; g_realm := "r"; g_cea := 4; g_cer := 4; g_dwa := 4; g_idle := 20; g_wakeup := 6;
+     g_rsize := 10%nat; g_validate := true; g_state_id := 1 |}.
+Definition ex_peer : peer :=
+  {| p_name := "p"; p_realm := "r"; p_has_addr := true; p_persistent := false; p_always := false;
+     p_cea := None; p_cer := None; p_dwa := None; p_idle := Some 10; p_rwait := 30;
+     p_conn := None; p_reason := None; p_lastconn := None; p_lastdisc := None; p_reqs := 0 |}.
+Definition ex_app : app := {| a_id := 4; a_auth := true; a_acct := false; a_ready := false; a_waiting := [] |}.
+Definition ex_node (now : Z) (c : conn) : node :=
+  {| n_cfg := ex_cfg; n_now := now; n_io_deadline := now + 6; n_stopping := false;
+     n_peers := [ex_peer]; n_conns := [c]; n_next_cid := 1%nat; n_half_ready := []; n_socket_peers := [0%nat];
+     n_routes := [("r", [(RApp 0, ["p"])])]; n_apps := [ex_app];
+     n_app_waiting := []; n_peer_waiting := []; n_origin_waiting := []; n_sent_answers := []; n_e2e := 1 |}.
+Definition ex_conn (recv : bool) (st : cstate) (host : string) : conn :=
+  {| c_id := 0%nat; c_recv := recv; c_state := st; c_node_name := host; c_host := host; c_last_read := 0;
+     c_last_dwr := 0; c_auth := []; c_acct := []; c_hbh := 100; c_sock_open := true; c_stalled := false;
+     c_out := []; c_workers := true |}.
+Definition ex_msg (k : cmd) (req : bool) (result : pres Z) : msg :=
+  {| m_cmd := k; m_req := req; m_p := false; m_e := false; m_t := false; m_app := 0; m_hbh := 7; m_e2e := 8;
+     m_origin := Present "p"; m_drealm := Undeclared; m_result := result; m_missing := [];
+     m_has_failed_avp_slot := true; m_auth := [4]; m_acct := []; m_tag := 0 |}.
+Definition ex_cer : msg := ex_msg CE true Absent.
+Definition ex_cea : msg := ex_msg CE false (Present 2001).
+Definition ex_dwr : msg := ex_msg DW true Absent.
+
+(* C06: the hypotheses of C06_cer_known / C06_ready_only_by_ce hold and the conclusions compute *)
+Example C06_example :
+  let n := ex_node 0 (ex_conn true SConnected "") in
+  (0 < n_next_cid n)%nat /\
+  option_map c_state (get_conn n 0%nat) = Some SConnected /\
+  (exists p, get_peer n "p" = Some p) /\
+  inter_z (node_auth n) (m_auth ex_cer) = [4] /\
+  snd (recv_cer n 0%nat ex_cer) = [OQueue 0%nat (answer_of ex_cer (Some 2001) [])] /\
+  option_map c_state (get_conn (fst (recv_cer n 0%nat ex_cer)) 0%nat) = Some SReady /\
+  option_map c_host (get_conn (fst (recv_cer n 0%nat ex_cer)) 0%nat) = Some "p" /\
+  option_map c_state (get_conn (fst (step n [] (ERecv 0%nat [ex_cer]))) 0%nat) = Some SReady /\
+  snd (step n [] (ERecv 0%nat [ex_dwr; ex_cer])) =
+    [OQueue 0%nat (answer_of ex_cer (Some 2001) []); OSend 0%nat (answer_of ex_cer (Some 2001) [])] /\
+  dispatch n 0%nat ex_dwr = (n, []).
+Proof. vm_compute. repeat split; try reflexivity; try lia. eexists; reflexivity. Qed.
+
+(* C06: the direction claim fails outside CONNECTED: an inbound connection in DISCONNECTING is flagged READY
+   again by a CEA 2001 (the gate passes every command in that state), no CER is involved *)
+Example C06_direction_counterexample :
+  let n := ex_node 0 (ex_conn true SDisconnecting "p") in
+  option_map c_recv (get_conn n 0%nat) = Some true /\
+  option_map c_state (get_conn n 0%nat) = Some SDisconnecting /\
+  option_map c_state (get_conn (fst (step n [] (ERecv 0%nat [ex_cea]))) 0%nat) = Some SReady /\
+  m_req ex_cea = false.
+Proof. vm_compute. repeat split; reflexivity. Qed.
+
+(* C11: an idle READY connection (peer idle timer 10 overrides the node's 20) gets one DWR; a DWA restores READY *)
+Example C11_example :
+  let n := ex_node 15 (ex_conn true SReady "p") in
+  let n1 := fst (check_timers n 0%nat) in
+  n_stopping n = false /\
+  option_map (eff_idle n) (get_conn n 0%nat) = Some 10 /\
+  snd (check_timers n 0%nat) =
+    [OQueue 0%nat {| o_cmd := DW; o_req := true; o_app := 0; o_hbh := 101; o_e2e := 2;
+                     o_result := None; o_failed := []; o_tag := 0 |}] /\
+  option_map c_state (get_conn n1 0%nat) = Some SReadyWaitDwa /\
+  option_map c_last_dwr (get_conn n1 0%nat) = Some 15 /\
+  snd (check_timers n1 0%nat) = [] /\
+  option_map c_state (get_conn (fst (recv_dwa n1 0%nat)) 0%nat) = Some SReady /\
+  snd (check_timers (set_time n1 20 26) 0%nat) = [OClose 0%nat R_DWA_TIMEOUT] /\
+  snd (dispatch n 0%nat ex_dwr) = [OQueue 0%nat (answer_of ex_dwr (Some 2001) [])].
+Proof. vm_compute. repeat split; reflexivity. Qed.
+
+(* C18: stop() sends one DPR to the ready connection; finishing the stop closes it with NODE_SHUTDOWN *)
+Example C18_example :
+  let n := ex_node 0 (ex_conn true SReady "p") in
+  let n1 := fst (step n [] (EStop false)) in
+  List.NoDup (List.map c_id (n_conns n)) /\
+  queued (snd (step n [] (EStop false))) =
+    [(0%nat, {| o_cmd := DP; o_req := true; o_app := 0; o_hbh := 101; o_e2e := 2;
+                o_result := None; o_failed := []; o_tag := 0 |})] /\
+  n_stopping n1 = true /\
+  snd (step n [] (EStop true)) = [] /\
+  snd (step n1 [] (EAccept 5)) = [OClose 1%nat R_SHUTDOWN] /\
+  snd (step n1 [] (EStopFinish 1 2)) = [OClose 0%nat R_SHUTDOWN] /\
+  n_conns (fst (step n1 [] (EStopFinish 1 2))) = [].
+Proof. vm_compute. repeat split; try reflexivity. repeat constructor. intros []. Qed.
+
+(* ================================================================================== *)
+Print Assumptions C06_gate_connected.
+Print Assumptions C06_gate_closing.
+Print Assumptions C06_cer_known.
+Print Assumptions C06_cer_unknown.
+Print Assumptions C06_unknown_then_closed.
+Print Assumptions C06_cer_no_common.
+Print Assumptions C06_ready_only_by_ce_other.
+Print Assumptions C06_ready_only_by_ce_recv.
+Print Assumptions C06_ready_only_by_ce_recv_connected.
+Print Assumptions C06_ready_only_by_ce.
+Print Assumptions conns_fresh_step.
+Print Assumptions C06_outbound_first_is_cer.
+Print Assumptions C06_cea_rejected.
+Print Assumptions C06_timeout.
+Print Assumptions check_timers_unfold.
+Print Assumptions C11_idle_sends_one.
+Print Assumptions C11_no_second_dwr.
+Print Assumptions C11_dwa_restores.
+Print Assumptions C11_silence_closes.
+Print Assumptions C11_no_dwr_while_busy.
+Print Assumptions C11_peer_overrides.
+Print Assumptions C11_dwr_answered.
+Print Assumptions C11_timers_idempotent.
+Print Assumptions C18_dpr_to_ready.
+Print Assumptions C18_quiet_while_stopping.
+Print Assumptions C18_newcomers_refused.
+Print Assumptions C18_all_closed.
+Print Assumptions C18_close_after_dpa.
+Print Assumptions C06_example.
+Print Assumptions C06_direction_counterexample.
+Print Assumptions C11_example.
+Print Assumptions C18_example.
